@@ -4,7 +4,7 @@
    holds exactly the lists of Unicode scalar values (`is_scalar`). *)
 From Coq Require Import List NArith Bool.
 Import ListNotations.
-Require Import RV.Model.C30_Text RV.Proof.C30_Text.
+Require Import RV.Model.C30_Text RV.Proof.C30_Text RV.Model.C31_Lexer RV.Model.C30_Value RV.Proof.C30_Value.
 Open Scope N_scope.
 
 (* every UTF-16 unit printed as \uXXXX digits is read back by read_utf16_unit (exhaustive, 2^16) *)
@@ -24,6 +24,25 @@ Proof. exact string_roundtrip_in_context. Qed.
 Theorem C30_escape_char_roundtrip : forall f c t pos start acc, is_scalar c = true ->
   exists k, lex_string (esc_char f c ++ t) pos start acc = lex_string t (pos + k) start (c :: acc).
 Proof. exact lex_esc_char. Qed.
+
+(* value layer, token level (Model/C30_Value.v): `print_value v` is the token sequence of what
+   format_manifest_value prints for a manifest value (Tuple / Enum<Nu8> / Array<Kind> / Bytes("hex") /
+   Map<K, V>(k => v) / literals / the one-argument forms Ident("..") of custom values), `parse_value` is
+   Parser::parse_value with its depth limit, `ast_of v` the syntax tree the generator then consumes.
+   For EVERY well-formed value tree nested at most PARSER_MAX_DEPTH deep (induction on the tree), the
+   parser reads the printed tokens back to exactly `ast_of v` and consumes exactly them — at any stack
+   depth that leaves room, with any continuation, and with any fuel above the token count (so the
+   loops' fuel is never the limit). *)
+Theorem C30_value_roundtrip : forall v, wf v -> vdepth v <= PARSER_MAX_DEPTH ->
+  parse_tokens (print_value v) = POk (ast_of v) [].
+Proof. exact value_roundtrip_top. Qed.
+Theorem C30_value_roundtrip_in_context : forall v, wf v -> forall fuel d rest,
+  (List.length (print_value v) + 1 <= fuel)%nat -> d + vdepth v <= PARSER_MAX_DEPTH ->
+  parse_value fuel d (print_value v ++ rest) = POk (ast_of v) rest.
+Proof. exact value_roundtrip. Qed.
+(* NOT proved (correspondence + round-trip oracle only): that lexing the printed TEXT gives
+   `print_value v` (number / identifier printing), and the generator step ast -> ManifestValue
+   (type checks, bech32 / decimal / id parsing of the leaf strings, name resolution). *)
 
 (* ON THE SURROGATE LENIENCY OF THE LEXER.  tokenize_string enters the pair branch for any first unit
    in D800..DFFF (also a LOW surrogate) and combines it with any second unit, so e.g. "\udc00A"
@@ -50,3 +69,5 @@ Print Assumptions C30_hex4_roundtrip.
 Print Assumptions C30_string_roundtrip.
 Print Assumptions C30_string_roundtrip_in_context.
 Print Assumptions C30_escape_char_roundtrip.
+Print Assumptions C30_value_roundtrip.
+Print Assumptions C30_value_roundtrip_in_context.
